@@ -355,6 +355,8 @@ class QsSim:
             QsSim._guard = StateGuard(mods)
             QsSim._mods = mods
         self.leaked_state = QsSim._guard.restore()  # containers a previous run left modified
+        if getattr(QsSim, "_jobs_guard", None) is not None:
+            self.leaked_state += QsSim._jobs_guard.restore()
 
         # `random` is an optional seam: an implementation that picks the blocked worker
         # deterministically does not import it
@@ -811,6 +813,7 @@ class QsSim:
         self.epoch += 1
         self._stamp("restart", self.epoch)
         self._notify(self.observer.on_restart, self.clock.time())
+        self._new_process()
         self.clock.mono += PHASE  # the new server's timer phase differs from every earlier request phase
         try:
             for _ in range(int(failed_attempts or 0)):
@@ -834,6 +837,29 @@ class QsSim:
         self.clock.mono += PHASE
         gevent.idle()
         return live
+
+    def _new_process(self):
+        """The restarted server is a NEW process: module-level state of the queue module (module
+        and class attributes, default arguments evaluated at import, caches) does not survive; only
+        the saved file does.  qs.jobs is executed again - under the simulated clock, so that whatever
+        it evaluates at import time sees the time of the restart - and the seams are put back."""
+        import importlib
+        import time as _real_time
+        if os.environ.get("VERIF_NO_REIMPORT"):
+            return
+        saved_time_fn = _real_time.time
+        _real_time.time = self.clock.time
+        try:
+            importlib.reload(jobs)
+        finally:
+            _real_time.time = saved_time_fn
+        self._saved = (_real_time, getattr(jobs, "random", None), self._saved[2])
+        jobs.time = self.clock
+        if self._saved[1] is not None:
+            jobs.random = self.random
+        from .stateguard import StateGuard
+        QsSim._jobs_guard = StateGuard([jobs])  # the fresh module's containers (the old ones are unreachable)
+        self.count("server-module-reimported")
 
     def close(self):
         try:
